@@ -556,11 +556,52 @@ func main() {
 		}
 	}
 
+	// the PTY path (NewPTYSession) goes through the same authorisation
+	realStartPTY := func(a authCase) {
+		procSeq++
+		a.Kind = "process-pty"
+		marker := fmt.Sprintf("m%04d", procSeq)
+		args := make([]string, len(a.Args))
+		for i, x := range a.Args {
+			args[i] = strings.ReplaceAll(x, "@M@", marker)
+		}
+		a.Args = args
+		e := mkExec(a)
+		meta := &shell.ShellMeta{Command: a.Command, Args: args, Password: a.Password, WorkDir: dir, TTY: &shell.TTYSettings{Rows: 24, Cols: 80}}
+		ctx, cancel := context.WithTimeout(context.Background(), 60*time.Second)
+		defer cancel()
+		sess, err := e.NewPTYSession(ctx, meta)
+		started := err == nil
+		if started {
+			done := make(chan struct{})
+			go func() { sess.Wait(); close(done) }()
+			select {
+			case <-done:
+			case <-time.After(60 * time.Second):
+			}
+			sess.Close()
+			e.ReleaseSession()
+		}
+		_, statErr := os.Stat(filepath.Join(dir, marker))
+		ran := statErr == nil
+		okByProperty, why := authorised(a)
+		c.Count(fmt.Sprintf("process-pty:started=%v", started))
+		if err != nil && okByProperty {
+			c.Count("process-pty:authorised-but-pty-unavailable")
+		}
+		if (started || ran) && !okByProperty {
+			c.Fail("unauthorised-process-started", fmt.Sprintf("a PTY process was started although %s: command %q args %q", why, a.Command, args), a)
+		}
+		if n := e.ActiveSessions(); n != 0 {
+			c.Fail("session-leak-after-process", fmt.Sprintf("%d sessions counted after the PTY session ended or failed", n), a)
+		}
+	}
+
 	whitelists := [][]string{{}, {"*"}, {"ls", "echo"}, {"ls", "*"}, {"*x", "ls"}, {"**"}, {" *"}, {"/bin/ls"}, {"ls "}, {""}, {"\xc3\xa9"}, {"ls", "ls"}, {"bin\\ls"}, {"LS"}, {"echo", "whoami", "ls"}}
 	commands := []string{"ls", "echo", "LS", "ls ", " ls", "/bin/ls", "./ls", "bin\\ls", "*", "", "\xc3\xa9", "l\x00s", "ls\n", "ls;id", "whoami", "l", "lsx", "../ls", "ls/", "\\ls"}
 	argAlphabet := []string{"a", "-l", "x y", ".", "..", "/", "\\", ";", "&", "|", "$", "`", "(", ")", "{", "}", "[", "]", "<", ">", "!", "*", "?", "~",
 		"\x00", "\xc3\xa9", "\xff", "\n", "'", "\"", "#", "=", ",", "%", "^", ":", "@", "+", "-", "_", "\t", " "}
-	argWords := []string{"", "file.txt", "-la", "--color=auto", "/etc/passwd", "/", "./x", "../x", "-f/etc/passwd", "--file=/etc/shadow", "a b", "$(id)", "`id`", "a;b", "a|b", "a&b",
+	argWords := []string{"", "--", "-- ;", "file.txt", "-la", "--color=auto", "/etc/passwd", "/", "./x", "../x", "-f/etc/passwd", "--file=/etc/shadow", "a b", "$(id)", "`id`", "a;b", "a|b", "a&b",
 		"a>b", "a<b", "{a,b}", "[ab]", "a*", "a?", "~root", "!!", "a\\b", "caf\xc3\xa9", "a\x00b", "a\nb", "'q'", "\"q\"", "#c", "C:\\x", "\\\\srv\\share", " /abs", "x/", "//x"}
 	genArg := func() string {
 		if c.Rand.Chance(1, 2) {
@@ -591,6 +632,10 @@ func main() {
 			var a authCase
 			c.ReadReplay(&a)
 			realStart(a, true)
+		case "process-pty":
+			var a authCase
+			c.ReadReplay(&a)
+			realStartPTY(a)
 		case "storm":
 			var st stormCase
 			c.ReadReplay(&st)
@@ -619,6 +664,10 @@ func main() {
 			a.Args = []string{w}
 			runAuth(a)
 			a.Args = []string{"ok", "fine", w}
+			runAuth(a)
+			a.Args = []string{"--", w}
+			runAuth(a)
+			a.Args = []string{"a", "b", "c", "d", "e", "f", "g", "h", "i", "j", "k", "l", w}
 			runAuth(a)
 			a.Whitelist = []string{"*"}
 			runAuth(a)
@@ -713,7 +762,14 @@ func main() {
 			a.Args = append([]string(nil), procBase.Args...)
 			mut(&a)
 			realStart(a, true)
+			b := a
+			b.Args = append([]string(nil), a.Args...)
+			for i := range b.Args { // fresh marker for the PTY variant
+				b.Args[i] = strings.ReplaceAll(b.Args[i], fmt.Sprintf("m%04d", procSeq), "@M@")
+			}
+			realStartPTY(b)
 		}
+		realStartPTY(procBase)
 	}
 	c.WriteCasesV("cases.v", hcq.CasesFileT("Model.ShellAuth", nCases, body, "d_case"))
 }
